@@ -3,7 +3,9 @@
    `not_of_source` (gen/TablesMatchers.v) is how composites.Not.build_description is written in the source now, and
    `comp_of_source` (Model/Describe.v over gen/TablesMatchers.v) the relationship words all_of / any_of use under a positive
    and a negative transformer in the source now: the theorems are stated for them, so they are re-checked against the code
-   on every run (they do not compile for a source without fixes/F09a-*.patch or fixes/F09b-*.patch). *)
+   on every run (they do not compile for a source without fixes/F09a-*.patch, fixes/F09b-*.patch or fixes/F23-*.patch);
+   `comp_of_source` also says whether the single-line layout recognises a composite operand behind not_ / a description-less
+   wrapper (composites._is_composite, fixes/F23-*.patch).  comp_pre_f9b and comp_pre_f23 are the labelled pre-fix variants. *)
 From Coq Require Import List Bool NArith ZArith.
 Import ListNotations.
 From LCC Require Import Base.Util Model.PyVal Model.Matcher gen.TablesMatchers Model.Describe Proofs.DescribeP.
@@ -14,14 +16,14 @@ Proof. exact (transformer_preserved comp_of_source). Qed.
 Print Assumptions C17_transformer_preserved.
 
 (* Hence the wording of an operand of all_of / any_of does not depend on its siblings: the composite's description is the
-   layout (single line, or itemised under the 100-character / newline / nested-composite rules) of the descriptions the
+   layout (single line, or itemised under the 100-character / newline / composite-operand rules) of the descriptions the
    operands have on their own under the same transformer settings, joined by the composite's relationship word for these
    settings (rel_all / rel_any: "and" / "or", exchanged under a negative transformer). *)
 Theorem C17_sibling_independent : forall ms t,
   describe_st not_of_source comp_of_source (AllOf ms) t =
-    (layout ms (rel_all comp_of_source t) (map (fun m => fst (describe_st not_of_source comp_of_source m t)) ms), t) /\
+    (layout comp_of_source ms (rel_all comp_of_source t) (map (fun m => fst (describe_st not_of_source comp_of_source m t)) ms), t) /\
   describe_st not_of_source comp_of_source (AnyOf ms) t =
-    (layout ms (rel_any comp_of_source t) (map (fun m => fst (describe_st not_of_source comp_of_source m t)) ms), t).
+    (layout comp_of_source ms (rel_any comp_of_source t) (map (fun m => fst (describe_st not_of_source comp_of_source m t)) ms), t).
 Proof. exact (sibling_independent comp_of_source). Qed.
 Print Assumptions C17_sibling_independent.
 
@@ -32,77 +34,95 @@ Proof. exact (double_negation_wording comp_of_source). Qed.
 Print Assumptions C17_double_negation.
 
 (* negation in the wording follows negation in the logic: not_(m) is described as m with the negation flag of the
-   transformer flipped, and accepts exactly the opposite; and (De Morgan, F9b repaired) not_(all_of ms) is described exactly
-   like any_of (map not_ ms) and accepts the same values, dually for any_of.  The equality of the descriptions is stated for
-   operands none of which is itself an all_of / any_of object: with such an operand the left side is always itemised while
-   the right side (whose operands are Not objects) may fit on one line; C17_negation_de_morgan_layout gives the general form. *)
+   transformer flipped, and accepts exactly the opposite; and (De Morgan: F9b and F23 repaired) for EVERY operand list
+   not_(all_of ms) is described exactly like any_of (map not_ ms) and accepts the same values, dually for any_of.
+   (Before fixes/F23 the equality of the descriptions needed "no operand is itself an all_of / any_of object":
+   C17_negation_de_morgan_composite_operand_unfixed_refuted.) *)
 Theorem C17_negation_follows_logic : forall m ms t v,
   fst (describe_st not_of_source comp_of_source (Not m) t) = fst (describe_st not_of_source comp_of_source m (flip t)) /\
   truth (matches (Not m) v) = rmap negb (truth (matches m v)) /\
-  (existsb is_composite ms = false ->
-   describe_st not_of_source comp_of_source (Not (AllOf ms)) t = describe_st not_of_source comp_of_source (AnyOf (map Not ms)) t /\
-   describe_st not_of_source comp_of_source (Not (AnyOf ms)) t = describe_st not_of_source comp_of_source (AllOf (map Not ms)) t) /\
+  describe_st not_of_source comp_of_source (Not (AllOf ms)) t = describe_st not_of_source comp_of_source (AnyOf (map Not ms)) t /\
+  describe_st not_of_source comp_of_source (Not (AnyOf ms)) t = describe_st not_of_source comp_of_source (AllOf (map Not ms)) t /\
   truth (matches (Not (AllOf ms)) v) = truth (matches (AnyOf (map Not ms)) v) /\
   truth (matches (Not (AnyOf ms)) v) = truth (matches (AllOf (map Not ms)) v).
 Proof. exact negation_follows_logic. Qed.
 Print Assumptions C17_negation_follows_logic.
 
-(* for all operands: both sides show the same relationship word and the same operand descriptions; they are the same
-   `layout` of them up to its "an operand is itself a composite" test, which looks at the operand objects *)
+(* what that description is: the layout of the descriptions of the negated operands joined by the word of the dual composite;
+   for the layout an operand counts as a composite whether it is negated or not (composites._is_composite) *)
 Theorem C17_negation_de_morgan_layout : forall ms t,
   let ds := map (fun m => fst (describe_st not_of_source comp_of_source (Not m) t)) ms in
-  describe_st not_of_source comp_of_source (Not (AllOf ms)) t = (layout ms (rel_any comp_of_source t) ds, t) /\
-  describe_st not_of_source comp_of_source (AnyOf (map Not ms)) t = (layout (map Not ms) (rel_any comp_of_source t) ds, t) /\
-  describe_st not_of_source comp_of_source (Not (AnyOf ms)) t = (layout ms (rel_all comp_of_source t) ds, t) /\
-  describe_st not_of_source comp_of_source (AllOf (map Not ms)) t = (layout (map Not ms) (rel_all comp_of_source t) ds, t).
+  describe_st not_of_source comp_of_source (Not (AllOf ms)) t = (layout comp_of_source ms (rel_any comp_of_source t) ds, t) /\
+  describe_st not_of_source comp_of_source (Not (AnyOf ms)) t = (layout comp_of_source ms (rel_all comp_of_source t) ds, t) /\
+  existsb (composite_operand comp_of_source) (map Not ms) = existsb (composite_operand comp_of_source) ms.
 Proof. exact negation_de_morgan_layout. Qed.
 Print Assumptions C17_negation_de_morgan_layout.
 
-(* the hypothesis of the De Morgan equality is needed: not_(all_of(a, any_of(b, c))) is itemised, any_of(not_(a), not_(any_of(b, c)))
-   fits on one line *)
-Theorem C17_negation_de_morgan_composite_operand_refuted : exists ms,
-  describe not_of_source comp_of_source (Not (AllOf ms)) <> describe not_of_source comp_of_source (AnyOf (map Not ms)).
-Proof. exact de_morgan_wording_composite_operand. Qed.
-Print Assumptions C17_negation_de_morgan_composite_operand_refuted.
+(* a wrapper that keeps the description (hide_result_details()) changes neither the wording of what it wraps nor how its
+   parent lays it out *)
+Theorem C17_wrapper_transparent : forall m h t,
+  describe_st not_of_source comp_of_source (Wrapper m None h) t = describe_st not_of_source comp_of_source m t /\
+  composite_operand comp_of_source (Wrapper m None h) = composite_operand comp_of_source m /\
+  composite_operand comp_of_source (Not m) = composite_operand comp_of_source m.
+Proof. exact wrapper_and_not_transparent. Qed.
+Print Assumptions C17_wrapper_transparent.
 
 (* F9a (DESIGN section 6): with Not.build_description written `transformation.negative = True` on the shared object,
    sibling independence and double negation are false: all_of(is_not_none(), greater_than(0)) words its second operand in the
    negative and hands a modified transformer back; not_(not_(m)) is worded like not_(m). (Statements about the pre-fix variant
-   of the model, NotMutates with the composite words of that time; fixes/F09a-*.patch turns the source into the NotFresh variant.) *)
+   of the model, NotMutates with the composites of that time; fixes/F09a-*.patch turns the source into the NotFresh variant.) *)
 Theorem C17_sibling_independent_mutating_refuted : exists ms t,
-  fst (describe_st NotMutates comp_unfixed (AllOf ms) t) <>
-    layout ms (rel_all comp_unfixed t) (map (fun m => fst (describe_st NotMutates comp_unfixed m t)) ms) /\
-  snd (describe_st NotMutates comp_unfixed (AllOf ms) t) <> t.
+  fst (describe_st NotMutates comp_pre_f9b (AllOf ms) t) <>
+    layout comp_pre_f9b ms (rel_all comp_pre_f9b t) (map (fun m => fst (describe_st NotMutates comp_pre_f9b m t)) ms) /\
+  snd (describe_st NotMutates comp_pre_f9b (AllOf ms) t) <> t.
 Proof. exact sibling_independent_mutating_refuted. Qed.
 Print Assumptions C17_sibling_independent_mutating_refuted.
 
 Theorem C17_double_negation_mutating_refuted : exists m v,
-  fst (describe_st NotMutates comp_unfixed (Not (Not m)) fresh) = fst (describe_st NotMutates comp_unfixed (Not m) fresh) /\
+  fst (describe_st NotMutates comp_pre_f9b (Not (Not m)) fresh) = fst (describe_st NotMutates comp_pre_f9b (Not m) fresh) /\
   accepts (Not (Not m)) v = true /\ accepts (Not m) v = false.
 Proof. exact double_negation_mutating_refuted. Qed.
 Print Assumptions C17_double_negation_mutating_refuted.
 
 (* F9b (DESIGN section 6), repaired by fixes/F09b-*.patch: with one relationship word per composite whatever the transformer
-   (comp_unfixed, the pre-fix variant of the model) not_(all_of(a, b)) is described like all_of(not_(a), not_(b)) -- every operand
-   negated, the connective still "and" -- although they accept different values.  The words of the source as it is now
-   (comp_of_source) tell the same pair apart (last conjunct); in general see C17_negation_follows_logic. *)
+   (comp_pre_f9b, the pre-fix variant of the model) not_(all_of(a, b)) is described like all_of(not_(a), not_(b)) -- every operand
+   negated, the connective still "and" -- although they accept different values.  The source as it is now (comp_of_source)
+   tells the same pair apart (last conjunct); in general see C17_negation_follows_logic. *)
 Theorem C17_faithful_negated_composite_unfixed_refuted : exists m1 m2 v,
-  describe NotFresh comp_unfixed m1 = describe NotFresh comp_unfixed m2 /\ accepts m1 v = true /\ accepts m2 v = false /\
+  describe NotFresh comp_pre_f9b m1 = describe NotFresh comp_pre_f9b m2 /\ accepts m1 v = true /\ accepts m2 v = false /\
   describe NotFresh comp_of_source m1 <> describe NotFresh comp_of_source m2.
 Proof. exact faithful_negated_composite_unfixed_refuted. Qed.
 Print Assumptions C17_faithful_negated_composite_unfixed_refuted.
 
+(* F23 (DESIGN section 6), repaired by fixes/F23-*.patch: with the single-line layout testing the operand OBJECT
+   (comp_pre_f23, the pre-fix variant of the model: De Morgan words, isinstance test) a composite behind not_() or behind
+   hide_result_details() was not recognised by the composite holding it and was joined on its parent's line without grouping.
+   Three witnesses; in each the source as it is now (comp_of_source) behaves as it should (last conjunct):
+   - De Morgan in the wording failed for an operand that is itself a composite: not_(all_of(a, any_of(b, c))) was itemised,
+     any_of(not_(a), not_(any_of(b, c))) fitted on one line;
+   - a and (not b or not c)  read like  (a and not b) or not c;
+   - (1 or 2) and 3  read like  1 or (2 and 3)  with the inner composites behind hide_result_details(). *)
+Theorem C17_negation_de_morgan_composite_operand_unfixed_refuted : exists ms,
+  describe NotFresh comp_pre_f23 (Not (AllOf ms)) <> describe NotFresh comp_pre_f23 (AnyOf (map Not ms)) /\
+  describe NotFresh comp_of_source (Not (AllOf ms)) = describe NotFresh comp_of_source (AnyOf (map Not ms)).
+Proof. exact de_morgan_composite_operand_unfixed_refuted. Qed.
+Print Assumptions C17_negation_de_morgan_composite_operand_unfixed_refuted.
+
+Theorem C17_faithful_negated_operand_unfixed_refuted : exists m1 m2 v,
+  describe NotFresh comp_pre_f23 m1 = describe NotFresh comp_pre_f23 m2 /\ accepts m1 v = true /\ accepts m2 v = false /\
+  describe NotFresh comp_of_source m1 <> describe NotFresh comp_of_source m2.
+Proof. exact faithful_negated_operand_unfixed_refuted. Qed.
+Print Assumptions C17_faithful_negated_operand_unfixed_refuted.
+
+Theorem C17_faithful_wrapped_composite_unfixed_refuted : exists m1 m2 v,
+  describe NotFresh comp_pre_f23 m1 = describe NotFresh comp_pre_f23 m2 /\ accepts m1 v = true /\ accepts m2 v = false /\
+  describe NotFresh comp_of_source m1 <> describe NotFresh comp_of_source m2.
+Proof. exact faithful_wrapped_composite_unfixed_refuted. Qed.
+Print Assumptions C17_faithful_wrapped_composite_unfixed_refuted.
+
 (* Full faithfulness would be:  forall m1 m2, describe m1 = describe m2 -> forall v, accepts m1 v = accepts m2 v.
    It is still false of the code (open known findings; each witness is replayed on the implementation by the check):
-   all_of() and any_of() are both ":"; dict keys lose their type in json.dumps; a composite behind not_() -- a Not object,
-   which its parent does not recognise as a composite -- is joined on its parent's line without grouping, so that
-   a and (not b or not c) reads like (a and not b) or not c; and, outside the property's fragment, the same happens to a
-   composite behind hide_result_details(). *)
-Theorem C17_faithful_refuted_negated_operand : exists m1 m2 v,
-  describe not_of_source comp_of_source m1 = describe not_of_source comp_of_source m2 /\ accepts m1 v = true /\ accepts m2 v = false.
-Proof. exact faithful_refuted_negated_operand. Qed.
-Print Assumptions C17_faithful_refuted_negated_operand.
-
+   all_of() and any_of() are both ":"; dict keys lose their type in json.dumps. *)
 Theorem C17_faithful_refuted_empty_composite : exists m1 m2 v,
   describe not_of_source comp_of_source m1 = describe not_of_source comp_of_source m2 /\ accepts m1 v = true /\ accepts m2 v = false.
 Proof. exact faithful_refuted_empty_composite. Qed.
@@ -113,22 +133,19 @@ Theorem C17_faithful_refuted_dict_key : exists m1 m2 v,
 Proof. exact faithful_refuted_dict_key. Qed.
 Print Assumptions C17_faithful_refuted_dict_key.
 
-Theorem C17_faithful_refuted_wrapped_composite : exists m1 m2 v,
-  describe not_of_source comp_of_source m1 = describe not_of_source comp_of_source m2 /\ accepts m1 v = true /\ accepts m2 v = false.
-Proof. exact faithful_refuted_wrapped_composite. Qed.
-Print Assumptions C17_faithful_refuted_wrapped_composite.
-
 (* What is proved of faithfulness (partial): at TOKEN level.  Leaf wordings and their negative forms are opaque tokens
-   (a literal = a leaf matcher or a negated leaf), "and" / "or" / ":" / "-" are tokens, and the indentation of the itemised
-   form is read as structure (doc).  For expressions built from literals with non-empty all_of / any_of nested to any depth,
-   taken as they are or under one not_ (b1, b2: render_under s true e is the description of not_(e), every composite in it
-   worded with the De Morgan connective and every literal in its opposite form, as the repaired code does), rendered on one
-   line or itemised by whatever decision the length rule takes (`single`), the description determines the verdicts: two
-   expressions with the same rendering accept the same values, whatever the leaves mean (val).
-   MISSING for the full statement (and false in general, see the refuted theorems above): not_ applied to a composite that is
-   itself an operand of a composite, empty composites, wrappers, the sub-descriptions of has_item / has_entry / ..., and the
-   step from strings to tokens (a user string containing " and " or a newline is not a token boundary; string-level
-   injectivity is not claimed). *)
+   (a literal = a leaf matcher in its positive or negative form), "and" / "or" / ":" / "-" are tokens, and the indentation of
+   the itemised form is read as structure (doc).  For expressions built from literals with non-empty all_of / any_of and with
+   not_ ANYWHERE (FNotN), nested to any depth, described under either setting of the transformer's negation flag (b1, b2) as the
+   repaired code does -- not_ flips the flag, every composite takes the De Morgan connective of the flag it receives, every
+   literal the form of the flag it receives, and a composite with an operand that is a composite, also behind not_, is
+   itemised -- with one line or items chosen by whatever decision the length rule takes (`single`), the description determines
+   the verdicts: two expressions with the same rendering accept the same values, whatever the leaves mean (val).
+   (hide_result_details() is transparent to wording and layout, C17_wrapper_transparent: at this level it is the expression
+   it wraps.)
+   MISSING for the full statement (and false in general, see the refuted theorems above): empty composites,
+   override_description, the sub-descriptions of has_item / has_entry / ..., and the step from strings to tokens (a user string
+   containing " and " or a newline is not a token boundary; string-level injectivity is not claimed). *)
 Theorem C17_faithful_partial : forall (s1 s2 : bool -> list fexpr -> bool) (b1 b2 : bool) (e1 e2 : fexpr),
   fexpr_wf e1 = true -> fexpr_wf e2 = true ->
   render_under s1 b1 e1 = render_under s2 b2 e2 ->
@@ -136,7 +153,7 @@ Theorem C17_faithful_partial : forall (s1 s2 : bool -> list fexpr -> bool) (b1 b
 Proof. exact faithful_partial_negated. Qed.
 Print Assumptions C17_faithful_partial.
 
-(* without negation this is the statement about `render` (what C17_faithful_partial was before F9b was repaired) *)
+(* its instance for the description of a check (MatcherDescriptionTransformer(): flag off, `render`) *)
 Theorem C17_faithful_partial_positive : forall (s1 s2 : list fexpr -> bool) (e1 e2 : fexpr),
   fexpr_wf e1 = true -> fexpr_wf e2 = true ->
   render s1 e1 = render s2 e2 ->
@@ -160,10 +177,14 @@ Example C17_witness_itemised :
   describe not_of_source comp_of_source (not_ (AMat (not_ (AMat m)))) = describe not_of_source comp_of_source m.
 Proof. vm_compute. repeat split. Qed.
 
-(* De Morgan on concrete operands: on a single line, and itemised (more than 100 characters) *)
+(* De Morgan on concrete operands: on a single line, itemised (more than 100 characters), and with an operand that is itself
+   a composite (d) *)
 Example C17_witness_de_morgan :
   let a := greater_than (VInt 0) in let b := less_than (VInt 10) in let c := equal_to (VInt 100000000000000000000000000000000000000000000000000000000000000000000) in
-  existsb is_composite [a; b; c] = false /\
+  let d := AnyOf [b; equal_to (VInt 5)] in
+  describe not_of_source comp_of_source (Not (AllOf [a; d])) = describe not_of_source comp_of_source (AnyOf [Not a; Not d]) /\
+  has_newline (describe not_of_source comp_of_source (AnyOf [Not a; Not d])) = true /\
+  has_newline (describe not_of_source comp_of_source (AllOf [a; hide_result_details d])) = true /\
   describe not_of_source comp_of_source (Not (AllOf [a; b])) = describe not_of_source comp_of_source (AnyOf [Not a; Not b]) /\
   has_newline (describe not_of_source comp_of_source (Not (AllOf [a; b]))) = false /\
   describe not_of_source comp_of_source (Not (AnyOf [a; b; c])) = describe not_of_source comp_of_source (AllOf [Not a; Not b; Not c]) /\
@@ -182,5 +203,11 @@ Example C17_witness_tokens :
   (* not_(all_of(a, not b)) on one line: "not a or b" *)
   render_under (fun _ _ => true) true (FAllN [a; b]) = DLine [TLit (Lit 0 true); TOr; TLit (Lit 1 false)] /\
   render_under (fun _ _ => true) true (FAllN [a; b]) = render_under (fun _ _ => true) false (FAnyN [FL (Lit 0 true); FL (Lit 1 false)]) /\
-  render_under (fun _ _ => true) true (FAllN [a; b]) <> render_under (fun _ _ => true) false (FAllN [FL (Lit 0 true); FL (Lit 1 false)]).
+  render_under (fun _ _ => true) true (FAllN [a; b]) <> render_under (fun _ _ => true) false (FAllN [FL (Lit 0 true); FL (Lit 1 false)]) /\
+  (* all_of(a, not_(all_of(b, c))): the negated composite is itemised under its parent, "- a  - and: - not b - or not c" *)
+  render (fun _ => true) (FAllN [a; FNotN (FAllN [FL (Lit 1 false); c])]) =
+    DItems [(None, DLine [TLit (Lit 0 false)]); (Some TAnd, DLine [TLit (Lit 1 true); TOr; TLit (Lit 2 true)])] /\
+  (* all_of(a, not_(not_(b))) stays on one line *)
+  render (fun _ => true) (FAllN [a; FNotN (FNotN b)]) = DLine [TLit (Lit 0 false); TAnd; TLit (Lit 1 true)] /\
+  fexpr_wf (FAllN [a; FNotN (FAllN [FL (Lit 1 false); c])]) = true.
 Proof. repeat split; try reflexivity; discriminate. Qed.
